@@ -981,8 +981,8 @@ def parser(literal_string, simple_ident, all_columns=None, sqlserver=False):
                 + (
                     TRUE
                     | FALSE
-                    | Keyword("on") / True
-                    | Keyword("off") / False
+                    | Keyword("on", caseless=True) / True
+                    | Keyword("off", caseless=True) / False
                     | Keyword("1") / True
                     | Keyword("0") / False
                     | Empty() / True
